@@ -10,7 +10,7 @@ LEVEL = "exploration"
 SHARDS = {"quick": 8, "thorough": 16}
 BUDGET = {"quick": 22, "thorough": 240}
 RULE = ("random removal-enabled graphs of both classes (reciprocal pairs, self-loops, multi-run timelines) x id type "
-        "(int, str, non-ASCII str) x delimiter (default, ',', ';', tab, '|') x encoding (utf-8, latin-1, cp1252) x "
+        "(int, numeric-looking str, str, non-ASCII str; int and str reads alternate in one process) x delimiter (default, ',', ';', tab, '|') x encoding (utf-8, latin-1, cp1252) x "
         "target (path .txt/.gz/.bz2, open binary file, BytesIO). Oracle: the written bytes decode to exactly one "
         "row 'u<d>v<d>t' per interaction and present instant (multiset == model, orientation kept on digraphs, "
         "newline-terminated); caller-owned file objects are left open, path targets are closed and complete; "
@@ -20,16 +20,37 @@ RULE = ("random removal-enabled graphs of both classes (reciprocal pairs, self-l
 MIN = {"quick": {"rows==model": 1500, "read:has_interaction(u,v,t)": 30000, "fourcol:has_interaction(u,v,t)": 3000},
        "thorough": {"rows==model": 30000, "read:has_interaction(u,v,t)": 600000, "fourcol:has_interaction(u,v,t)": 60000}}
 REQUIRED_CELLS = {t: tuple("target:" + x for x in iohelp.TARGETS) + tuple("delim:%r" % d for d in iohelp.DELIMS) +
-                  tuple("enc:" + e for e in iohelp.ENCODINGS) + ("ids:int", "ids:str", "ids:nonascii",
+                  tuple("enc:" + e for e in iohelp.ENCODINGS) + ("ids:int", "ids:str", "ids:nonascii", "ids:numstr",
                                                                "class:DynGraph", "class:DynDiGraph",
-                                                               "src:reciprocal", "src:self-loop")
+                                                               "src:reciprocal", "src:self-loop",
+                                                               "src:big(>1024 rows)")
                   for t in ("quick", "thorough")}
 
 
-def build(ctx, dn, directed, idkind):
+def big_program(rng, directed):
+    """16 nodes, every pair present on long spans: more than 1024 snapshot rows / several hundred events"""
+    n = 16
+    prog = []
+    for i in range(n):
+        for j in range(i + 1, n):
+            t = rng.randint(0, 3)
+            for _ in range(2):
+                ln = rng.randint(4, 9)
+                prog.append(("add", i, j, t, t + ln))
+                t += ln + rng.randint(1, 2)
+    rng.shuffle(prog)
+    prog.sort(key=lambda op: op[3])
+    return prog
+
+
+def build(ctx, dn, directed, idkind, big=False):
     rng = ctx.rng
-    prog, fam = gen.random_program(rng, lambda: Model(directed, True), directed=directed, family="int",
-                                   tfamily=rng.choice(("small", "small", "neg", "big")), with_nodes=False, max_nodes=5)
+    if big:
+        prog = big_program(rng, directed)
+    else:
+        prog, fam = gen.random_program(rng, lambda: Model(directed, True), directed=directed, family="int",
+                                       tfamily=rng.choice(("small", "small", "neg", "big", "numpy")),
+                                       with_nodes=False, max_nodes=5)
     # rename the int ids of the generated program into the requested id family
     names = {}
 
@@ -50,7 +71,7 @@ def build(ctx, dn, directed, idkind):
         if k == "add":
             return (k, ren[op[1]], ren[op[2]], op[3], op[4])
         if k == "addfrom":
-            return (k, [(ren[a], ren[b]) for a, b in op[1]], op[2], op[3])
+            return (k, [(ren[x[0]], ren[x[1]]) + tuple(x[2:]) for x in op[1]], op[2], op[3])
         return (k, [ren[x] for x in op[1]]) + tuple(op[2:])
     prog = [rn(op) for op in prog]
     G, m, ok = driver.build_accepted(dn, prog, directed)
@@ -59,8 +80,8 @@ def build(ctx, dn, directed, idkind):
     return G, m, prog
 
 
-def one(ctx, dn, directed, idkind, delim, enc, target):
-    r = build(ctx, dn, directed, idkind)
+def one(ctx, dn, directed, idkind, delim, enc, target, big=False):
+    r = build(ctx, dn, directed, idkind, big)
     if not r:
         ctx.skip("graph not built")
         return
@@ -110,6 +131,8 @@ def one(ctx, dn, directed, idkind, delim, enc, target):
             exp = Counter({(min(k[0], k[1]), max(k[0], k[1]), k[2]): c for k, c in exp.items()})
         ctx.expect("rows==model", obs, exp, cfg)
         # read back
+        if big:
+            ctx.cell("src:big(>1024 rows)" if len(rows) > 1024 else "src:big(too small)")
         conv = int if idkind == "int" else str
         rk = dict(directed=directed, nodetype=conv, timestamptype=int, encoding=enc)
         if delim is not None:
@@ -183,10 +206,12 @@ def four_column(ctx, dn):
 def run(ctx, dn):
     rng = ctx.rng
     # the configuration grid is walked systematically (graphs are random), shard by shard
-    grid = [(d, i, dl, e, t) for d in (False, True) for i in ("int", "str", "nonascii")
+    grid = [(d, i, dl, e, t) for d in (False, True) for i in ("int", "numstr", "str", "nonascii")
             for dl in iohelp.DELIMS for e in iohelp.ENCODINGS for t in iohelp.TARGETS]
     rng.shuffle(grid)
     n = 0
+    # one large graph per shard first (block-wise writers, long files)
+    one(ctx, dn, rng.random() < 0.5, "int", rng.choice(iohelp.DELIMS), "utf-8", rng.choice(iohelp.TARGETS), big=True)
     while ctx.time_left() > 1:
         cfg = grid[n % len(grid)]
         one(ctx, dn, *cfg)
